@@ -373,3 +373,61 @@ def strip_types(t):
 
 def teq(a, b):
     return strip_types(a) == strip_types(b)
+
+
+def _append_path(t, p):
+    """Apply projection `p` (tuple of path elements) to term `t`."""
+    if not p:
+        return t
+    if t[0] in ("param", "call", "field", "arg"):
+        return t[:3] + (tuple(t[3]) + tuple(p),) + tuple(t[4:])
+    if t[0] == "agg":
+        return t[:4] + (tuple(t[4]) + tuple(p),)
+    return ("proj", t, tuple(p))
+
+
+def inline_private_calls(sym, prog, t, skip=(), depth=0):
+    """Replace calls to crate-private, non-role helper functions by their (parameter-substituted) return term, so that a value
+    computed in a small helper (`fn algo(&self) -> Algorithm { self.algorithm.unwrap_or(Sha256) }`) is seen as what it is.
+    Calls whose helper's return term cannot be expressed (unknown / cyclic) are left alone."""
+    if depth > 3 or not isinstance(t, tuple) or not t:
+        return t
+    k = t[0]
+    rec = lambda x: inline_private_calls(sym, prog, x, skip, depth)
+    if k == "call":
+        args = tuple(rec(a) for a in t[2])
+        t = ("call", t[1], args) + tuple(t[3:])
+        g = prog.fns.get(t[1])
+        if g is not None and t[1] not in skip and not g.outer.reachable and not g.outer.impl_trait:
+            rt = sym.of_place(g.body, 0, ())
+            if not any(st[0] == "unknown" for st in walk(rt)) and rt[0] != "unknown":
+                def subst(x):
+                    if not isinstance(x, tuple) or not x:
+                        return x
+                    if x[0] == "param" and x[1] == g.path:
+                        return _append_path(args[x[2]], x[3]) if x[2] < len(args) else x
+                    if x[0] == "call":
+                        return ("call", x[1], tuple(subst(a) for a in x[2])) + tuple(x[3:])
+                    if x[0] == "agg":
+                        return x[:3] + (tuple((f, subst(v)) for f, v in x[3]),) + tuple(x[4:])
+                    if x[0] == "op":
+                        return ("op", x[1], tuple(subst(a) for a in x[2])) + tuple(x[3:])
+                    if x[0] == "alt":
+                        return ("alt", tuple(subst(a) for a in x[1]))
+                    if x[0] == "fmt":
+                        return ("fmt", tuple((p if p[0] == "lit" else (p[0], p[1], subst(p[2])) + tuple(p[3:])) for p in x[1]))
+                    if x[0] == "pushed":
+                        return ("pushed", subst(x[1]), tuple(subst(a) for a in x[2]))
+                    return x
+                out = _append_path(subst(rt), t[3])
+                return inline_private_calls(sym, prog, out, skip, depth + 1)
+        return t
+    if k == "agg":
+        return t[:3] + (tuple((f, rec(v)) for f, v in t[3]),) + tuple(t[4:])
+    if k == "op":
+        return ("op", t[1], tuple(rec(a) for a in t[2])) + tuple(t[3:])
+    if k == "alt":
+        return ("alt", tuple(rec(a) for a in t[1]))
+    if k == "pushed":
+        return ("pushed", rec(t[1]), tuple(rec(a) for a in t[2]))
+    return t
